@@ -1,6 +1,7 @@
 import BluetoeModel.Util.Proto
 import BluetoeModel.Cccd.Parse
 import BluetoeModel.AttWriteQueue.Model
+import BluetoeModel.Cccd.Shape
 open BluetoeModel.Util BluetoeModel.Cccd BluetoeModel.AttWriteQueue
 
 def queueStr (s : BluetoeModel.AttWriteQueue.State) : String :=
@@ -15,7 +16,10 @@ def drvStep (s : Option BluetoeModel.AttWriteQueue.State) (ws : List String) :
   match ws with
   | "reset" :: _ :: rest =>
       match parseSpec rest with
-      | some sp => (some (BluetoeModel.AttWriteQueue.State.init sp.decl sp.mem), sp.describe)
+      | some sp =>
+          -- the precondition of `never_oob` / `queue_representation`, evaluated on the real table
+          if declWF sp.decl sp.mem then (some (BluetoeModel.AttWriteQueue.State.init sp.decl sp.mem), sp.describe)
+          else (s, "MODEL-TABLE-NOT-WF")
       | none => (s, "bad-op")
   | _ =>
     match s with
